@@ -72,7 +72,7 @@ pub fn rl_runs(len: usize, runs: &Runs) -> RLVector {
     RLVector::from(b)
 }
 
-pub const PLAIN_ROUTES: [&str; 8] = ["raw", "push", "iter", "from_sparse", "from_rl", "copy_rl", "raw_shrunk", "raw_resized"];
+pub const PLAIN_ROUTES: [&str; 9] = ["raw", "push", "iter", "from_sparse", "from_rl", "copy_rl", "raw_shrunk", "raw_resized", "iter_inexact"];
 pub const SPARSE_ROUTES: [&str; 5] = ["builder", "try_set", "extend", "from_plain", "from_rl"];
 pub const RL_ROUTES: [&str; 7] = ["runs", "bits", "split", "set_len_steps", "zero_runs", "from_plain", "from_sparse"];
 
@@ -122,6 +122,13 @@ pub fn build(kind: &str, route: &str, len: usize, runs: &Runs) -> AnyBv {
                     let mut bits = vec![false; len];
                     for p in positions(runs) { bits[p] = true; }
                     bits.into_iter().collect::<BitVector>()
+                },
+                "iter_inexact" => {
+                    // collect() from iterators whose size_hint is not exact: lower bound 0 (filter), and an exact prefix chained with a filtered suffix
+                    let mut bits = vec![false; len];
+                    for p in positions(runs) { bits[p] = true; }
+                    if len % 2 == 0 { bits.into_iter().filter(|_| true).collect::<BitVector>() }
+                    else { let tail = bits.split_off(len / 2); bits.into_iter().chain(tail.into_iter().filter(|_| true)).collect::<BitVector>() }
                 },
                 "from_sparse" => BitVector::from(sparse_builder(len, runs)),
                 "from_rl" => BitVector::from(rl_runs(len, runs)),
@@ -306,7 +313,7 @@ pub fn replay_case(case: &Value, kinds: &[String], tally: &mut Tally) {
     tally.cases += 1;
     for kind in kinds.iter() {
         for route in routes_for(kind).iter() {
-            if *route == "iter" && len > (1 << 22) { continue; }
+            if (*route == "iter" || *route == "iter_inexact") && len > (1 << 22) { continue; }
             let built = guarded(|| build(kind, route, len, &runs));
             let ctx0 = |op: &str, arg: &Value| json!({"kind": "bv", "type": kind, "route": route, "len": len, "runs": case["runs"], "op": op, "arg": arg});
             let bv = match built {
